@@ -111,7 +111,8 @@ func HarnessC20Unlikely() {
 	exempt := ""
 	switch vx.Choose("exempt", vx.Param("exempts", 3)) {
 	case 1:
-		exempt = `<a href="/x" ` + mk[0] + `>epsilon</a>`
+		// (followed by a data table: content kept as a whole that sits between or before the marked parts)
+		exempt = `<a href="/x" ` + mk[0] + `>epsilon</a><table><caption>zeta</caption><thead><tr><th>eta</th><th>theta</th></tr></thead><tbody><tr><td>iota</td><td>kappa</td></tr></tbody></table>`
 	case 2:
 		exempt = `<table><tr><td ` + mk[0] + `>epsilon</td></tr></table>`
 	}
